@@ -419,13 +419,17 @@ class SimStream(io.TextIOBase):
         self._tty = tty
         self._name = name
 
+    # the encoding of the terminal / pipe behind stdout (PYTHONIOENCODING, LC_ALL=C, a Windows console): what cannot be encoded
+    # raises UnicodeEncodeError on stdout (errors='strict') and is escaped on stderr (errors='backslashreplace'), as in CPython
+    stdout_encoding = 'utf-8'
+
     @property
     def encoding(self):
-        return 'utf-8'
+        return SimStream.stdout_encoding
 
     @property
     def errors(self):
-        return 'strict'
+        return 'strict' if self._name == '<stdout>' else 'backslashreplace'
 
     @property
     def name(self):
@@ -451,6 +455,8 @@ class SimStream(io.TextIOBase):
                 b[0].log({'k': 'stdout-broken', 'fault': 'stdout-broken', 'after_effect': b[1].get('after_effect', -1), 'stream': self._name})
             code = getattr(errno_mod, b[1].get('errno', 'EPIPE'))
             raise OSError(code, os.strerror(code))       # EPIPE -> BrokenPipeError
+        if SimStream.stdout_encoding != 'utf-8' and self._name == '<stdout>':
+            s.encode(SimStream.stdout_encoding, 'strict')        # raises what the real stream raises; the reader gets UTF-8 all the same
         _real_os['write'](self._fd, s.encode('utf-8', 'backslashreplace'))
         return len(s)
 
@@ -856,6 +862,7 @@ def _install(ch):
     sys.stderr = SimStream(errfd, bool(tty.get('stderr', tty.get('stdout'))), '<stderr>')
     sys.stdin = SimStdin(bool(tty.get('stdin')))
     SimStream.broken = (ch, dict(plan['stdout_fault'])) if plan.get('stdout_fault') else None
+    SimStream.stdout_encoding = plan.get('stdout_encoding') or 'utf-8'
 
     def sim_input(prompt=''):
         sys.stdout.write(str(prompt))
